@@ -286,8 +286,8 @@ def finalize(agg, tier):
     c = agg['counters']
     r = []
     for name in ['sift', 'mask_sift', 'ensemble_sift', 'complete_ensemble_sift', 'sift_second_layer', 'mask_sift_second_layer']:
-        if c.get('returns:' + name, 0) < 50:
-            r.append('%s returned only %d times (need >= 50)' % (name, c.get('returns:' + name, 0)))
+        if c.get('returns:' + name, 0) < 30:
+            r.append('%s returned only %d times (need >= 30)' % (name, c.get('returns:' + name, 0)))
     if c.get('capped_runs_beyond_K', 0) < 20:
         r.append('fewer than 20 capped runs with cap > K')
     if c.get('peel_columns_checked', 0) < 200:
